@@ -28,7 +28,7 @@ CHECKS = {
 
 CHECKS["C01"] = {
     "technique": "bounded exhaustive enumeration of typed programs x both optimizer profiles, all argument values, against a CPython-executed reference semantics",
-    "text": "Every program of five finite grammar families is translated by the real front end; its return expressions are evaluated on ALL "
+    "text": "Every program of six finite grammar families is translated by the real front end; its return expressions are evaluated on ALL "
             "argument values and compared with CPython running the same source on exact integers with width/overflow tracking (exact / low "
             "determined bits / undetermined rule of the property); truth_table() compared on all rows for small n; rejected programs counted.",
     "note": "Trusted: CPython, the RefInt width rules (documented in DESIGN §3.5), boolev. Widths <= 4 bits (8 for single-argument types), depth <= 2.",
